@@ -32,6 +32,7 @@ var perRecordRoots = []string{
 var constructionBoundary = map[string]bool{
 	"orchestrate/obykeyset.(*byKeySetOrchestrator).newPipeline": true,
 	"orchestrate/obase.PrepareSequentialPipeline":               true,
+	"input/sysloginput.(*Config).NewInput$1":                    true, // per-connection parser + extraction transforms from configuration
 }
 
 // runtimeSet: universe functions reachable from the per-record roots without entering construction
@@ -86,6 +87,20 @@ func ruleC07R1(c *Ctx) {
 	reach, fns := c.runtimeSet()
 	c.floor("C07.R1", "universe functions reachable from the per-record roots", len(fns), 150)
 	pr := newProver(c)
+	// assume-guarantee: the declared struct invariants are assumed for the previous state while they are
+	// verified at every store (induction over the life of the object); a failure withdraws them
+	for i := range f6StructInvs {
+		pr.structInvOK[f6StructInvs[i].typ] = true
+	}
+	pr.verifyStructInvs(c)
+	for _, ok := range pr.structInvOK {
+		if !ok {
+			keep := pr.structInvOK
+			pr = newProver(c) // drop everything derived under the withdrawn assumption
+			pr.structInvOK = keep
+			break
+		}
+	}
 	res := classifyF6(c, pr, fns)
 	nA, nB, nR := 0, 0, 0
 	usedContracts := map[string]int{}
@@ -143,4 +158,13 @@ func canonOblig(o idxOblig) string {
 		hi = cc.of(o.Hi)
 	}
 	return cc.of(o.X) + "[" + lo + ":" + hi + "]"
+}
+
+func init() {
+	register("F6SET", "dump", func(c *Ctx) {
+		reach, fns := c.runtimeSet()
+		for _, f := range fns {
+			fmt.Printf("RT %s  <- %s\n", anchorName(f), anchorName(reach[f]))
+		}
+	})
 }
